@@ -563,3 +563,70 @@ Definition is_attr_op (o : op) : bool :=
   | AttrHas _ | AttrGetStr _ | AttrGetDouble _ | AttrGetBool _ | AttrGetJson _ => true
   | _ => false
   end.
+
+(* ------------------------------------------------------------------ what a program says its streams are *)
+(* ovni_proc_set_rank is thread-local: the last call of the slot counts *)
+Definition rank_step (acc : option (Z * Z)) (e : nat * op) (th : nat) : option (Z * Z) :=
+  match snd e with
+  | ProcSetRank r n => if Nat.eqb (fst e) th then Some (r, n) else acc
+  | _ => acc
+  end.
+Definition rank_from (acc : option (Z * Z)) (p : prog) (th : nat) : option (Z * Z) :=
+  fold_left (fun a e => rank_step a e th) p acc.
+Definition rank_set (p : prog) (th : nat) : option (Z * Z) := rank_from None p th.
+
+(* the per-stream record of Emu/MetaDefs.v a thread is expected to leave: identity, app id (every thread carries
+   it), the rank THIS thread set, the CPUs THIS thread registered in call order (no member when it registered none) *)
+Definition smeta (loom : str) (pid tid app : Z) (rank : option (Z * Z)) (cpus : list (Z * Z)) : MetaDefs.stream_meta :=
+  MetaDefs.mkS loom pid tid (Some app)
+    (match rank with Some (r, _) => Some r | None => None end)
+    (match rank with Some (_, n) => Some n | None => None end)
+    (match cpus with [] => None | _ :: _ => Some cpus end).
+
+Definition expected_metas (p : prog) : list MetaDefs.stream_meta :=
+  match p with
+  | (_, ProcInit app loom pid) :: _ =>
+    map (fun e => smeta loom pid (snd e) app (rank_set p (fst e)) (cpus_added p (fst e))) (inits p)
+  | _ => []
+  end.
+
+(* the final stream.json of every thread of the program, in the order of the ovni_thread_init calls *)
+Definition finals (p : prog) (evs : list ev) : list (option json) :=
+  map (fun e => disk (writes p evs) (snd e)) (inits p).
+Definition final_metas (p : prog) (evs : list ev) : option (list MetaDefs.stream_meta) :=
+  all_some (map (fun o => match o with Some j => to_stream_meta j | None => None end) (finals p evs)).
+
+(* ------------------------------------------------------------------ a whole trace: one program per process *)
+Definition trace := list prog.
+Definition trace_metas (tr : trace) : list MetaDefs.stream_meta := flat_map expected_metas tr.
+Definition proc_id (p : prog) : option (str * Z * Z) :=
+  match p with (_, ProcInit app loom pid) :: _ => Some (loom, pid, app) | _ => None end.
+
+(* What the documented protocol asks ACROSS threads and processes (doc/user/runtime/index.md, trace_spec.md), stated on the
+   records the call lists determine (trace_metas: identity, rank_set, cpus_added of every ovni_thread_init):
+   - a process is named by loom and pid; no two threads of the trace share loom, pid and tid;
+   - "Set the rank ... Only once per process": the threads of a process that set a rank set the same one, and in a loom
+     either every process sets it or none ("MPI or not");
+   - "Emit loom CPUs ... from a single thread or multiple threads, in the latter the list of CPUs is merged": over all threads
+     of a loom, whichever registers what, the indices are exactly 0 .. n-1 (n > 0), one phyid per index and one index per
+     phyid.  A thread that registers no CPU is fine; a loom in which no thread registers any is not. *)
+Record trace_ok (tr : trace) : Prop := {
+  to_proc : forall p q l pid a b, In p tr -> In q tr -> proc_id p = Some (l, pid, a) -> proc_id q = Some (l, pid, b) -> a = b;
+  to_keys : NoDup (MetaDefs.keys (trace_metas tr));
+  to_rank_uniq : forall k x y, In (k, x) (MetaDefs.rank_claims (trace_metas tr)) -> In (k, y) (MetaDefs.rank_claims (trace_metas tr)) -> x = y;
+  to_rank_loom : forall l p q x, MetaDefs.proc_in (trace_metas tr) (l, p) -> MetaDefs.proc_in (trace_metas tr) (l, q) ->
+                 In ((l, p), x) (MetaDefs.rank_claims (trace_metas tr)) -> exists y, In ((l, q), y) (MetaDefs.rank_claims (trace_metas tr));
+  to_cpu_range : forall l, MetaDefs.loom_in (trace_metas tr) l ->
+                 exists n, 0 < n /\ (forall i, 0 <= i < n -> exists ph, In (l, Some (i, ph)) (MetaDefs.cpu_claims (trace_metas tr))) /\
+                           (forall i ph, In (l, Some (i, ph)) (MetaDefs.cpu_claims (trace_metas tr)) -> 0 <= i < n);
+  to_cpu_idx : forall l i ph q, In (l, Some (i, ph)) (MetaDefs.cpu_claims (trace_metas tr)) ->
+               In (l, Some (i, q)) (MetaDefs.cpu_claims (trace_metas tr)) -> ph = q;
+  to_cpu_phy : forall l i j ph, In (l, Some (i, ph)) (MetaDefs.cpu_claims (trace_metas tr)) ->
+               In (l, Some (j, ph)) (MetaDefs.cpu_claims (trace_metas tr)) -> i = j
+}.
+
+(* aliases with names that stay unique in a flat extraction next to Emu/MetaDefs.v (which has its own run / state) *)
+Definition rtm_run (c : cfg) (p : prog) : list ev * state := run c p.
+Definition rtm_build := MetaDefs.build.
+Definition rtm_thread_rows := MetaDefs.thread_rows.
+Definition rtm_cpu_rows := MetaDefs.cpu_rows.
